@@ -22,6 +22,25 @@ chk("C02","exploration",
  "Liveness is decided only in bounded form (hang rule, W=4/8 s, two dumps). Cases whose stream was reset by gorums itself (observed through hooks) are set aside as disturbed, not judged.",
  "runtime monitoring: outcome oracle over recorded gated histories + bounded-progress hang rule","DESIGN.md 6 C02, 4.4","gated")
 
+chk("C03","exploration",
+ "Random mixed-call-type client programs (one goroutine or a baton chain) against puppet servers with gated/slow handlers, all send-buffer sizes, PCT delays at hook points; offline oracle over server entry logs: per (server, connection) the issue sequence is strictly increasing in handler-start order, no call handled twice, and without cancellation nothing is lost and one connection per server.",
+ "Handler start is observed at puppet handler entry under the server's log mutex, before any Release. 'Lost message' is decided in bounded form (no log growth across two samples after W).",
+ "runtime monitoring: offline ordering/exactly-once checker over recorded server entry logs of random programs","DESIGN.md 6 C03","fifo")
+chk("C04","exploration",
+ "Online monitor inside puppet handlers (per connection: handlers entered and not yet released must be exactly 1 at entry) over workloads of 1-4 client connections per server mixing release scripts (early, 100x, helper goroutine, concurrent, never until gate, reply late), "
+ "plus directed sub-cases: a holding handler delays only its own connection, the queued handler starts after the release (hang rule), replies of released handlers carry the right token; fatal runtime errors (unlock of unlocked mutex) are caught as child crashes.",
+ "Monitor decrement precedes the unlock and increment follows the server's lock hand-over, so a correct server cannot be flagged.",
+ "runtime monitoring: online per-connection handler-overlap assertion + directed progress checks (hang rule) + crash capture","DESIGN.md 6 C04","handlers")
+chk("C06","exploration",
+ "Every configuration-level call type with per-node functions (identity, distinct payloads, skipping any subset incl. all): server entry logs must show exactly one delivery per targeted (call,node) with the digest of f(req,id), none for skipped nodes, skipped nodes neither waited for nor counted; "
+ "one-way calls must return while handlers hold their connection, and with no-send-waiting while the sender goroutine is held at a hook before the write; exactly-once afterwards.",
+ "Bounded-progress form for 'returns'; the sender hold uses the build-tag hook snd.beforeWrite (steering only, the verdict is the call's return).",
+ "runtime monitoring: delivery oracle over server entry logs + hook-steered return checks with the hang rule","DESIGN.md 6 C06","pernode")
+chk("C09","exploration",
+ "Workload phases of all call kinds with cancellations before/during/after sending, slow quorum functions, streaming servers, PCT delays at every channel hook point, and directed scripts (stale-broken window of reconnect, streams outrunning a finished correctable, cancel while a write is blocked, cancel right after return); "
+ "black-box oracle: after each phase a probe RPC with a fresh context to every node must be answered (3 attempts, hang rule with goroutine-dump witness and wedge signature).",
+ "Usability is decided in bounded form. Two wedges found this way on the original tree were repaired (fix: 328fbda).",
+ "runtime monitoring: black-box probe oracle after hostile phases, hook-steered schedules, hang rule witness","DESIGN.md 6 C09","usable")
 chk("C11","exploration",
  "Gated correctable executions (8 variants incl. server streams, per-node, custom type) with snapshots of raw/typed Get, Done and Watch(-1..max+1) taken from inside the next quorum-function invocation (logical time) and after completion, "
  "compared with a reference model computed from the observed invocation log (publish on higher level, value identity, final on done/exhaustion/ctx end, stability, watcher release).",
